@@ -353,11 +353,13 @@ pub struct TreeCfg {
     pub max_classes: usize,
     pub exec_budget: u64,
     pub collect_flat: bool,
+    /// wall-clock cap for one exploration (a cap that is hit is reported, never a verdict)
+    pub deadline: Option<std::time::Instant>,
 }
 
 impl Default for TreeCfg {
     fn default() -> Self {
-        TreeCfg { lattice: vec![1 << 12, 1 << 9, 1 << 5, 8, 4], macro_cells: vec![1 << 10, 1 << 8, 1 << 5, 8, 4], tail_bits: 40, tail_points: 2, restart_probes: 10, sig_probes: 4, max_depth: 24, scan_points: 16, max_classes: 4096, exec_budget: 2_000_000_000, collect_flat: false }
+        TreeCfg { lattice: vec![1 << 12, 1 << 9, 1 << 5, 8, 4], macro_cells: vec![1 << 10, 1 << 8, 1 << 5, 8, 4], tail_bits: 40, tail_points: 2, restart_probes: 10, sig_probes: 4, max_depth: 24, scan_points: 16, max_classes: 4096, exec_budget: 2_000_000_000, collect_flat: false, deadline: None }
     }
 }
 
@@ -818,6 +820,10 @@ impl<'a> Explorer<'a> {
         };
         self.cnt.more += 1;
         self.cnt.max_depth = self.cnt.max_depth.max(p.len());
+        let timed_out = self.cfg.deadline.map(|d| (self.cnt.more & 0x3F) == 0 && std::time::Instant::now() > d).unwrap_or(false);
+        if timed_out {
+            self.cfg.exec_budget = 0; // everything still pending becomes residual mass
+        }
         if p.len() >= self.cfg.max_depth || self.cnt.execs > self.cfg.exec_budget {
             if self.cnt.execs > self.cfg.exec_budget {
                 self.cnt.budget_hit = true;
